@@ -51,6 +51,34 @@ CLAIMED = {
              "points are managed. Tied by running every entry point x reply kinds x all 8 combinations on the real client.",
         design_ref='DESIGN.md §3 C08',
         technique='Lean 4 proof (case analysis) + AST-extracted call graph tie (decide) + metamorphic/differential suite over 8 switch settings'),
+    'C09': dict(
+        text="Lean theorems over the send_request model and the history model: inside the block the frame is the outside frame with bit 7 of byte 1 set (and "
+             "the override sees it set), None at once with no read when not waiting for an NRC, None for silence/positive and the NRC for a negative reply when waiting "
+             "(after any number of 0x78, by induction), services without subfunction unchanged, suppression cleared on every exit and later steps identical to never "
+             "having entered. Tied by random well-nested histories on the real client (real with-blocks left normally and by exception), op by op against udsdrv, plus an "
+             "independent frame construction.",
+        design_ref='DESIGN.md §3 C09',
+        technique='Lean 4 proof (induction over schedules / history steps) + differential history suite'),
+    'C10': dict(
+        text="Lean theorems over the call-level model: the client state changes only through an accepted session change under a post-2006 edition with server timing "
+             "enabled; then P2 = first 16-bit field (ms) and P2* = second x 10 (ms) and nothing else changes; these are the limits later requests use (with C05). Tied by "
+             "history suites on the real client under the virtual clock (exact for dyadic values) and by every 16-bit boundary pair + random pairs checked directly against a/1000, b*10/1000.",
+        design_ref='DESIGN.md §3 C10',
+        technique='Lean 4 proof (case analysis + history step invariant) + differential history suite under virtual clock'),
+    'C13': dict(
+        text="Lean theorems: parity normalisation for all levels 1..0x7E (kernel-decided), exact seed/key request frames, complete behaviour of the composite (seed exchange "
+             "first; without a good seed nothing more is sent and the algorithm is not called; otherwise exactly one call with that seed and the level as passed, result sent "
+             "unmodified), at most two frames, an accepted seed has at least one byte. AST-extracted call graph pins the undecorated inner calls. Tied by histories over "
+             "all seed/key outcomes and switch settings and by all 126 levels x 6 algorithm signatures on the real client.",
+        design_ref='DESIGN.md §3 C13',
+        technique='Lean 4 proof (case analysis; decide over all levels) + call-graph tie + differential history suite'),
+    'C15': dict(
+        text="Lean theorems: the wait loop never sends or flushes; every send_request log is flush, one send, then waits only (any outcome), at most one send per call and "
+             "two for the composite, stale frames cannot influence a call and the queue is empty afterwards, a call is a function of (arguments, configuration, timing, flags), "
+             "failing calls leave the state untouched. Tied by histories with residue frames and failures on the real client, a fresh-client replay of every call, a state-diff "
+             "monitor over all 80 entry points, and the context manager on every exit path.",
+        design_ref='DESIGN.md §3 C15',
+        technique='Lean 4 proof (induction on arrivals; log-shape invariant) + differential/metamorphic history suite'),
 }
 
 PENDING_REASON = 'check not built yet in this round (build order in DESIGN.md §7); not claimed until its theorem and tie exist'
